@@ -347,6 +347,26 @@ def probe_binned(rng, binset_aa):
 def gen_obs_case(rng, K, nmax):
     src, band = gen_pair(rng)
     binset, unit, kind = gen_binset(rng, nmax)
+    if binset is not None and unit == 'AA_number' and len(binset) >= 3 and rng.random() < 0.2:
+        # a native sampling point one or two float steps above (or below) a bin edge: closer than the 1e-12 merging
+        # threshold, so one of the two is dropped from the integration grid and the bin must still get its segments
+        for leaf in (src['leaf'], band['leaf']):
+            if leaf['leaf'] == 'empirical' and len(leaf['pts']) >= 2:
+                cs = sorted(float(x) for x in binset)
+                i = rng.randrange(len(cs) - 1)
+                edge = (cs[i] + cs[i + 1]) / 2
+                p = edge
+                for _ in range(rng.randint(1, 2)):
+                    p = float(np.nextafter(p, np.inf if rng.random() < 0.7 else -np.inf))
+                pts = [unq(x) for x in leaf['pts']]
+                if F(p) not in pts and min(pts) < F(p) < max(pts) and pts == sorted(pts):
+                    j = max(k for k in range(len(pts)) if pts[k] < F(p))
+                    vals = [unq(v) for v in leaf['vals']]
+                    pts.insert(j + 1, F(p))
+                    vals.insert(j + 1, (vals[j] + vals[j + 1]) / 2 + O.dy(rng, 0, 1, 3) * max(abs(vals[j]), abs(vals[j + 1])))
+                    leaf['pts'], leaf['vals'] = qs(pts), qs(vals)
+                    kind = kind + '+native_point_at_edge'
+                break
     c = {'op': 'obs', 'const': K, 'src': src, 'band': band, 'force': rng.choice(['extrap', 'extrap', 'taper', 'none']),
          'binset_in': None if binset is None else qs(binset), 'binset_unit': unit, '_kind': kind,
          'queries': [{'q': 'bins'}]}
